@@ -1,6 +1,6 @@
 (* Correspondence layer for the wiring family (C06, C07, C15). *)
 From Coq Require Import List NArith ZArith Bool.
-From Viv Require Import Base.Assoc Base.Tree Model.Paths Model.Wire.
+From Viv Require Import Base.Assoc Base.Tree Model.Paths Model.Wire Model.CompState.
 Import ListNotations.
 
 Definition oz_eqb (a b : option Z) : bool :=
@@ -89,7 +89,9 @@ Inductive wcase :=
 (* inverse_topology of an update of process #i *)
 | WInvert (fixed : bool) (ps : list proc) (i : nat) (upd : list (key * utree)) (exp : res utree)
 (* state after applying the inverted update *)
-| WApply (ps : list proc) (init : tree Z) (i : nat) (upd : list (key * utree)) (exp : res sval).
+| WApply (ps : list proc) (init : tree Z) (i : nat) (upd : list (key * utree)) (exp : res sval)
+(* Composite.initial_state(): processes in visiting order with their own states, the composite's state *)
+| WCompInit (cps : list cproc) (state : list (key * utree)) (exp : res utree).
 
 Definition nth_proc (ps : list proc) (i : nat) : proc :=
   nth i ps {| pr_parent := []; pr_schema := SAll; pr_topo := [] |}.
@@ -124,6 +126,7 @@ Definition check_case (c : wcase) : bool :=
       let p := nth_proc ps i in
       res_equ utree_equ (rbind (invert fixed (pr_parent p) upd (pr_topo p)) (fun inv => Ok (UD inv))) e
   | WApply ps init i upd e => res_equ sval_equ (model_apply ps init i upd) e
+  | WCompInit cps st e => res_equ utree_equ (rbind (composite_state cps st) (fun r => Ok (UD r))) e
   end.
 
 Definition model_out (c : wcase) :=
@@ -134,4 +137,5 @@ Definition model_out (c : wcase) :=
       let p := nth_proc ps i in
       (None, None, Some (rbind (invert fixed (pr_parent p) upd (pr_topo p)) (fun inv => Ok (UD inv))))
   | WApply ps init i upd _ => (Some (model_apply ps init i upd), None, None)
+  | WCompInit cps st _ => (None, None, Some (rbind (composite_state cps st) (fun r => Ok (UD r))))
   end.
